@@ -68,6 +68,30 @@ def filters_for(shape: Dict[str, Any], country: str, mode: str, salt: int) -> Li
     return picked
 
 
+# the inputs bundled with RP2 (input/*.ods with their config/*.ini), as its own golden-file tests run them: with -n
+BUNDLED = [("crypto_example", "crypto_example"), ("test_data", "test_data"), ("test_data2", "test_data"), ("test_data3", "test_data"), ("test_data4", "test_data4"),
+           ("test_hifo", "test_data"), ("test_hifo2", "test_data"), ("test_many_year_data", "test_data"), ("test_data_multi_method", "test_data_multi_method")]
+BUNDLED_FILTERS = [(None, None), (date(2020, 1, 1), None), (None, date(2019, 12, 31)), (date(2019, 1, 1), date(2019, 12, 31)), (date(2018, 7, 1), date(2020, 6, 30))]
+
+
+def bundled_cases(tier: str) -> List[Dict[str, Any]]:
+    out = []
+    k = 0
+    for ods, ini in BUNDLED:
+        cfgs = [{"country": "us", "method": m, "lang": None, "section": None} for m in (None, "fifo", "lifo", "hifo", "lofo")] + \
+               [{"country": c, "method": None, "lang": None, "section": None} for c in ("jp", "es", "ie", "generic")] + [{"country": "jp", "method": None, "lang": "en", "section": None}]
+        if ini == "test_data_multi_method":
+            cfgs = [c for c in cfgs if c["method"] is None]  # the config file carries an [accounting_methods] section
+        for cfg in cfgs:
+            k += 1
+            filters = BUNDLED_FILTERS if (tier == "thorough" or cfg["country"] == "us" and cfg["method"] in (None, "hifo")) else [BUNDLED_FILTERS[0], BUNDLED_FILTERS[1 + k % 4]]
+            for f, t in filters:
+                if cfg["country"] == "jp" and f and t:
+                    continue  # rp2_jp refuses -f together with -t
+                out.append({"cfg": cfg, "shape": f"bundled:{ods}", "bundled": [ods, ini], "from": f, "to": t})
+    return out
+
+
 def build_cases(tier: str) -> List[Dict[str, Any]]:
     shapes = CS.shapes()
     cfgs = configurations()
@@ -86,6 +110,7 @@ def build_cases(tier: str) -> List[Dict[str, Any]]:
                 mode = "singles" if (cfg["country"] == "us" and cfg["method"] is None and cfg["lang"] is None and cfg["section"] is None) else "few"
             for f, t in filters_for(shape, cfg["country"], mode, k):
                 out.append({"cfg": cfg, "shape": name, "from": f, "to": t})
+    out += bundled_cases(tier)
     for i, c in enumerate(out):
         c["id"] = i
     return out
@@ -110,13 +135,25 @@ def run_case(case: Dict[str, Any]) -> Tuple[Any, List[str], str]:
     from rp2verif import odsread
     from rp2verif.seams import cli
 
-    shape = CS.shapes()[case["shape"]]
     cfg = case["cfg"]
     ws = cli.Workspace(f"c16-{case['id']}")
     try:
-        ini = ws.write("config.ini", CS.ini_for(shape, methods=cfg["section"]))
-        ods = cli.write_ods(os.path.join(ws.inp, "input.ods"), CS.matrices(shape))
-        argv = ["-o", ws.out]
+        if case.get("bundled"):
+            import shutil
+
+            from rp2verif import common
+
+            # copies, so that the run cannot touch the repository's own files
+            ini = os.path.join(ws.inp, "config.ini")
+            ods = os.path.join(ws.inp, "input.ods")
+            shutil.copyfile(os.path.join(common.REPO, "config", case["bundled"][1] + ".ini"), ini)
+            shutil.copyfile(os.path.join(common.REPO, "input", case["bundled"][0] + ".ods"), ods)
+            argv = ["-n", "-o", ws.out]
+        else:
+            shape = CS.shapes()[case["shape"]]
+            ini = ws.write("config.ini", CS.ini_for(shape, methods=cfg["section"]))
+            ods = cli.write_ods(os.path.join(ws.inp, "input.ods"), CS.matrices(shape))
+            argv = ["-o", ws.out]
         if cfg["method"]:
             argv += ["-m", cfg["method"]]
         if cfg["lang"]:
@@ -128,7 +165,7 @@ def run_case(case: Dict[str, Any]) -> Tuple[Any, List[str], str]:
         argv += [ini, ods]
         res = cli.run_forked(cfg["country"], argv, ws.cwd, ws.out, env_extra=GENERIC_ENV if cfg["country"] == "generic" else None)
         problems: List[str] = []
-        prefix = "mixed" if (cfg["section"] and len(cfg["section"]) > 1) else (list(cfg["section"].values())[0] if cfg["section"] else (cfg["method"] or "fifo"))
+        prefix = "mixed" if ((cfg["section"] and len(cfg["section"]) > 1) or (case.get("bundled") and case["bundled"][1] == "test_data_multi_method")) else (list(cfg["section"].values())[0] if cfg["section"] else (cfg["method"] or "fifo"))
         if res.exit == 0:
             for rep in REPORTS[cfg["country"]]:
                 name = f"{prefix}_{rep}.ods"
@@ -171,7 +208,7 @@ def judge(st: Stats, case: Dict[str, Any]) -> None:
     st.inc(f"runs_{case['cfg']['country']}")
     res, problems, log_text = run_case(case)
     tag = case_str(case)
-    payload = {"case": {"cfg": case["cfg"], "shape": case["shape"], "from": case["from"].isoformat() if case["from"] else None,
+    payload = {"case": {"cfg": case["cfg"], "shape": case["shape"], "bundled": case.get("bundled"), "from": case["from"].isoformat() if case["from"] else None,
                         "to": case["to"].isoformat() if case["to"] else None}}
     if case["from"] or case["to"] or case["cfg"]["section"] or case["cfg"]["method"] or case["cfg"]["lang"]:
         st.inc("distinct_nontrivial")
@@ -258,7 +295,7 @@ def replay(path: str) -> int:
     cfg = dict(c["cfg"])
     if cfg.get("section"):
         cfg["section"] = {int(k): v for k, v in cfg["section"].items()}
-    case = {"id": "replay", "cfg": cfg, "shape": c["shape"], "from": date.fromisoformat(c["from"]) if c["from"] else None, "to": date.fromisoformat(c["to"]) if c["to"] else None}
+    case = {"id": "replay", "cfg": cfg, "shape": c["shape"], "bundled": c.get("bundled"), "from": date.fromisoformat(c["from"]) if c["from"] else None, "to": date.fromisoformat(c["to"]) if c["to"] else None}
     ctx = mp.get_context("fork")
     with ctx.Pool(1, initializer=init) as pool:
         st = pool.apply(worker, ([case],))
